@@ -38,6 +38,7 @@ type closeScenario struct {
 	PreGather  bool   `json:"preGather"`  // close before GatherCandidates was ever called
 	Writer     bool   `json:"writer"`     // a goroutine keeps writing application data on A's conn
 	TCP        bool   `json:"tcp"`        // passive ICE-TCP candidate on a real TCPMuxDefault, the driver plays the peer
+	ViaConn    bool   `json:"viaConn"`    // Close calls go through the net.Conn returned by Dial (Conn.Close) once it exists
 }
 
 type closeJob struct {
@@ -150,17 +151,36 @@ func runCloseScenario(t *testing.T, sc closeScenario, log *evlog) {
 	a, bAg := mk("A", "a1"), mk("B", "b1")
 	var closedReturned sync.WaitGroup
 	closeOnce := sync.Once{}
+	var connMu sync.Mutex
+	var connA *ice.Conn
 	doClose := func(who string, graceful bool) {
 		log.emit("CloseStart", "who", who, "graceful", graceful)
 		var err error
-		if graceful {
+		connMu.Lock()
+		c := connA
+		connMu.Unlock()
+		switch {
+		case graceful:
 			err = a.GracefulClose()
-		} else {
+		case sc.ViaConn && c != nil:
+			err = c.Close() // the application holds only the net.Conn: same contract as Agent.Close
+		default:
 			err = a.Close()
 		}
 		log.emit("CloseReturn", "who", who, "graceful", graceful, "err", errStr(err))
 	}
 	cbClose := func(which string) {
+		if sc.Closer == which && sc.ViaConn { // Dial returns at about the time the handler runs: give it a (virtual) moment
+			for i := 0; i < 200; i++ {
+				connMu.Lock()
+				c := connA
+				connMu.Unlock()
+				if c != nil {
+					break
+				}
+				time.Sleep(time.Millisecond)
+			}
+		}
 		if sc.Closer == which {
 			closeOnce.Do(func() { doClose(which, false) })
 		}
@@ -186,8 +206,6 @@ func runCloseScenario(t *testing.T, sc closeScenario, log *evlog) {
 		cbClose("cbpair")
 		log.emit("HEnd", "who", "pair")
 	})
-	var connMu sync.Mutex
-	var connA *ice.Conn
 	ub, pb := cred("B", 1)
 	ua, pa := cred("A", 1)
 	if !sc.PreGather {
